@@ -41,6 +41,12 @@ def gen_phases(rng, n, pattern):
     elif pattern == "extreme":
         inner = [rng.choice([0.05, 0.4, -0.05, -0.4]) * (1 + 1e-9 * (1 if abs(0.05) else 0)) for _ in range(k)]
         inner = [math.copysign(min(max(abs(x), 0.0500001), 0.3999999), x) for x in inner]
+    elif pattern == "equal-extreme":
+        m = rng.choice([0.3999999, -0.3999999, 0.0500001, -0.0500001])
+        inner = [m] * k
+    elif pattern == "alternating-extreme":
+        m = rng.choice([0.3999999, 0.0500001])
+        inner = [m if i % 2 else -m for i in range(k)]
     elif pattern == "signs":
         m = rng.uniform(0.05, 0.4)
         inner = [m * rng.choice([-1, 1]) for _ in range(k)]
@@ -61,7 +67,7 @@ def run(ctx):
     else:
         reps = 1 if quick else 8
         for n in range(1, 33):
-            for pat in ("equal", "alternating", "extreme", "signs", "random"):
+            for pat in ("equal", "alternating", "extreme", "signs", "random") + (("equal-extreme", "alternating-extreme") if n >= 24 or not quick else ()):
                 for _ in range(reps):
                     ph = gen_phases(rng, n, pat)
                     cases.append({"fn": "roundtrip", "phases": [hexf(x) for x in ph], "pattern": pat, "timeout": 300})
